@@ -26,3 +26,11 @@ pub fn scratch_dir() -> std::path::PathBuf {
     let _ = std::fs::create_dir_all(&p);
     p
 }
+
+/// Debugging aid: with VERIF_DUMP_DIR set (replays only), scenarios write the byte images they handle.
+pub fn dump_image(name: &str, bytes: &[u8]) {
+    if let Ok(d) = std::env::var("VERIF_DUMP_DIR") {
+        let _ = std::fs::create_dir_all(&d);
+        let _ = std::fs::write(std::path::Path::new(&d).join(name), bytes);
+    }
+}
